@@ -1247,6 +1247,71 @@ lyd_val_uniq_find_leaf(const struct lysc_node_leaf *uniq_leaf, const struct lyd_
 }
 
 /**
+ * @brief Check whether the default value of a unique leaf without an instance is in use in a list instance
+ * (RFC 7950 sec. 7.6.1). It is not if a presence container on the way to the leaf does not exist or if the leaf
+ * (or a container on the way to it) is in a case that neither has any data nor is the default case of a choice
+ * without any data.
+ *
+ * @param[in] uniq_leaf Unique leaf with a default value.
+ * @param[in] list List instance without an instance of @p uniq_leaf.
+ * @return Whether the default value is in use.
+ */
+static ly_bool
+lyd_val_uniq_dflt_in_use(const struct lysc_node_leaf *uniq_leaf, const struct lyd_node *list)
+{
+    const struct lyd_node *siblings;
+    struct lyd_node *match;
+    const struct lysc_node *iter, *scase;
+    const struct lysc_node_choice *choic;
+    size_t depth = 0, i;
+
+    /* get leaf depth */
+    for (iter = &uniq_leaf->node; iter && (iter != list->schema); iter = lysc_data_parent(iter)) {
+        ++depth;
+    }
+
+    /* siblings of the next data node on the way to the leaf, none once a node does not exist */
+    siblings = lyd_child(list);
+    while (depth) {
+        /* find schema node with this depth */
+        for (i = depth - 1, iter = &uniq_leaf->node; i; iter = lysc_data_parent(iter)) {
+            --i;
+        }
+
+        /* all the cases the node is in must exist */
+        scase = iter->parent;
+        while (scase && (scase->nodetype == LYS_CASE)) {
+            choic = (const struct lysc_node_choice *)scase->parent;
+            if (!lys_getnext_data(NULL, siblings, NULL, scase, NULL)) {
+                /* no data of the case, it exists only if it is the default case and no other case does */
+                if ((choic->dflt != (const struct lysc_node_case *)scase) ||
+                        lys_getnext_data(NULL, siblings, NULL, &choic->node, NULL)) {
+                    return 0;
+                }
+            }
+            scase = choic->parent;
+        }
+
+        match = NULL;
+        lyd_find_sibling_val(siblings, iter, NULL, 0, &match);
+        if (match) {
+            siblings = lyd_child(match);
+        } else if (depth > 1) {
+            if (iter->flags & LYS_PRESENCE) {
+                /* non-existing presence container */
+                return 0;
+            }
+
+            /* non-presence container exists whenever its parent does */
+            siblings = NULL;
+        }
+        --depth;
+    }
+
+    return 1;
+}
+
+/**
  * @brief Unique list validation callback argument.
  */
 struct lyd_val_uniq_arg {
@@ -1297,18 +1362,22 @@ uniquecheck:
             diter = lyd_val_uniq_find_leaf(slist->uniques[u][v], first);
             if (diter) {
                 val1 = &((struct lyd_node_term *)diter)->value;
-            } else {
+            } else if (slist->uniques[u][v]->dflt && lyd_val_uniq_dflt_in_use(slist->uniques[u][v], first)) {
                 /* use default value */
                 val1 = slist->uniques[u][v]->dflt;
+            } else {
+                val1 = NULL;
             }
 
             /* second */
             diter = lyd_val_uniq_find_leaf(slist->uniques[u][v], second);
             if (diter) {
                 val2 = &((struct lyd_node_term *)diter)->value;
-            } else {
+            } else if (slist->uniques[u][v]->dflt && lyd_val_uniq_dflt_in_use(slist->uniques[u][v], second)) {
                 /* use default value */
                 val2 = slist->uniques[u][v]->dflt;
+            } else {
+                val2 = NULL;
             }
 
             if (!val1 || !val2 || val1->realtype->plugin->compare(ctx, val1, val2)) {
@@ -1434,9 +1503,11 @@ lyd_validate_unique(const struct lyd_node *first, const struct lysc_node *snode,
                     diter = lyd_val_uniq_find_leaf(uniques[u][v], set->objs[i]);
                     if (diter) {
                         val = &((struct lyd_node_term *)diter)->value;
-                    } else {
+                    } else if (uniques[u][v]->dflt && lyd_val_uniq_dflt_in_use(uniques[u][v], set->objs[i])) {
                         /* use default value */
                         val = uniques[u][v]->dflt;
+                    } else {
+                        val = NULL;
                     }
                     if (!val) {
                         /* unique item not present nor has default value */
